@@ -51,7 +51,7 @@ def gen_config(rnd, *, seg=None, ndim=None, allow_optional=True, per_axis=True) 
         "pos_mode": "single",
         "tracklet_key": rnd.choice([None, None, "track_id", "tid"]),
         "lineage_key": rnd.choice([None, None, "lin"]),
-        "route": rnd.choice(["bare", "bare", "ids", "featuredict"]),
+        "route": rnd.choice(["bare", "bare", "ids", "featuredict", "from_tracks", "from_tracks_ids"]),
         "frames": rnd.randint(3, 6),
         "optional": [],
     }
@@ -246,7 +246,7 @@ class World:
                 g.add_edge(nd["parent"], nd["id"], **{CUSTOM_EDGE: nd[CUSTOM_EDGE]})
         tkey = cfg["tracklet_key"] or "track_id"
         lkey = cfg["lineage_key"] or "lineage_id"
-        if cfg["route"] == "ids":
+        if cfg["route"] in ("ids", "from_tracks_ids"):
             # valid, non-contiguous ids already on the graph -> detected, not recomputed
             o1, o2 = init["id_offsets"]
             for i, cls in enumerate(sorted(refs.tracklets(g.nodes, g.edges), key=lambda c: min(c))):
@@ -267,7 +267,13 @@ class World:
         )
         with warnings.catch_warnings():
             warnings.simplefilter("ignore")
-            tracks = SolutionTracks(g, **kwargs)
+            if cfg["route"] in ("from_tracks", "from_tracks_ids"):
+                # a plain Tracks object promoted to a solution (ids are computed by from_tracks)
+                from funtracks.data_model import Tracks
+
+                tracks = SolutionTracks.from_tracks(Tracks(g, **kwargs))
+            else:
+                tracks = SolutionTracks(g, **kwargs)
             if cfg["route"] == "featuredict":
                 # second construction from a pre-built registry (as load_tracks/from_tracks do)
                 fd = ff.FeatureDict.from_json(copy.deepcopy(tracks.features.dump_json()))
